@@ -137,6 +137,12 @@ def run_spec(spec, knobs, choices=None, poll=True, drain_virtual=40.0,
                     run.value = top.run()
                 elif knobs["entry"] == "orchestrate":
                     run.value = top.orchestrate()       # documented alias
+                elif knobs["entry"] == "wait_for":
+                    # the application bounds the whole run from outside
+                    async def bounded():
+                        return await asyncio.wait_for(
+                            top.co_run(), knobs["entry_timeout"])
+                    run.value = loop.run_until_complete(bounded())
                 else:
                     async def main():
                         return await top.co_run()
